@@ -333,6 +333,7 @@ pub fn subs() -> Vec<Box<dyn DynSub>> {
     vec![
         sub(Sub { name: "c05.convert", source: Source::Gen(conv_strategy, 6_000_000, 72_000_000), oracle: conv_oracle, known: no_known, hang_is_violation: false }),
         sub(Sub { name: "c05.constants", source: Source::Enum(const_enum, |_| true), oracle: const_oracle, known: no_known, hang_is_violation: false }),
+        crate::props::chain::c05_chain(),
         crate::props::fuzzsub::fc05(),
     ]
 }
